@@ -22,6 +22,7 @@ EXPLANATION = (
     "wait_for_bootup and NmtError on the silent path; R9 every state change of the slave reaches its heartbeat payload and the heartbeat starts on the boot-up transition (shared with C17.R3): the state a master reports is the one the heartbeat carries; R8 structural assumptions shared by all properties: no class-level mutable object is mutated in place by instances, no method re-runs the constructor, logging statements cannot raise (typed eager formatting, divisions), no mutable default argument is kept or mutated, no new truth-value test of a None-able number, a look-up memory the pinned tree does not have is keyed by all its inputs (arithmetic keys folded over a grid of addresses) and, on the serving side, emptied somewhere."
     ' R6 also: only on_heartbeat notifies state_update while wait_for_heartbeat waits once.'
     ' R5 also: the boot-up test does not look at the raw frame byte.'
+    ' R3 also: the master records the commanded state before the frame is sent; R8 also: a table look-up in a log argument cannot fail (its key is a literal, a value taken out of a table whose values are keys, or guarded), and a Condition over a plain Lock counts as a plain lock for the callback clause.'
 )
 ASSUMPTIONS = [
     "not decided: agreement of master and slave views after every prefix of a command history (runtime), thread timing",
